@@ -51,6 +51,7 @@ fn registry() -> Vec<PartDesc> {
     v.push(desc::<props::c19::C19Codec>("exploration"));
     v.push(desc::<props::c19::C19Decode>("exploration"));
     v.push(desc::<props::c19::C19Stream>("exploration"));
+    v.push(desc::<props::c20::C20Remote>("exploration"));
     #[cfg(not(feature = "v2"))]
     v.push(foreign("C16", "e1-v2", "v2", "exploration"));
     #[cfg(feature = "async-trait")]
